@@ -238,7 +238,9 @@ impl ResourceAllocator {
 #[cfg(feature = "verif")]
 impl ResourceAllocator {
     /// Read-only copy of the free state of all pools (verification hook)
-    pub(crate) fn verif_pools(&self) -> Vec<crate::internal::worker::resources::pool::VerifPoolState> {
+    pub(crate) fn verif_pools(
+        &self,
+    ) -> Vec<crate::internal::worker::resources::pool::VerifPoolState> {
         self.pools.iter().map(|p| p.verif_free_state()).collect()
     }
 
